@@ -58,6 +58,30 @@ pub async fn from_join_rel(
             // - Otherwise we add the expression to join_filter (use conjunction if filter already exists)
             let (join_ons, null_equality, join_filter) =
                 split_eq_and_noneq_join_predicate_with_nulls_equality(on);
+            // A comparison of two columns of the same input (e.g. `l.a = l.b`) is not
+            // an equijoin key: the join could not resolve one of them against the
+            // other input. It stays part of the filter.
+            let (left_schema, right_schema) = (left.schema(), right.schema());
+            let (join_ons, same_side_ons): (Vec<_>, Vec<_>) =
+                join_ons.into_iter().partition(|(l, r)| {
+                    (left_schema.has_column(l) && right_schema.has_column(r))
+                        || (left_schema.has_column(r) && right_schema.has_column(l))
+                });
+            let key_op = match null_equality {
+                NullEquality::NullEqualsNothing => Operator::Eq,
+                NullEquality::NullEqualsNull => Operator::IsNotDistinctFrom,
+            };
+            let join_filter = same_side_ons
+                .into_iter()
+                .map(|(l, r)| {
+                    Expr::BinaryExpr(BinaryExpr {
+                        left: Box::new(Expr::Column(l)),
+                        op: key_op,
+                        right: Box::new(Expr::Column(r)),
+                    })
+                })
+                .chain(join_filter)
+                .reduce(Expr::and);
             let (left_cols, right_cols): (Vec<_>, Vec<_>) =
                 itertools::multiunzip(join_ons);
             left.join_detailed(
